@@ -112,7 +112,16 @@ QUOTE_DOCS = [{"it\\'s": 1, "\\'": 2, "'\\": 3, '"\\': 4, "a\\\\'b": 5, 'c\\"d':
               [{"n": "a\\'b"}, {"n": "\\'"}, {"n": '\\"'}, {"n": "'"}, {"\\'": "\\"}]]
 
 
+# names written with escapes whose decoded character the string form then carries RAW (DEL, C1 controls, separators, BOM ...)
+RAW_ESCAPED = ['$["a\\u007fb"]', "$['\\u007F']", '$["ab", "\\u007f"]', '$.items[?@["k\\u007f"] == 1].id', '$["\\u0080\\u009f"]', '$["l\\u2028s\\u2029"]',
+               '$["\\ufeffbom"]', '$["soft\\u00adhy"]', '$["\\ud83d\\ude00"]', '$["tab\\there", "nl\\nx", "\\u001f", "\\u0000"]', '$[?@["\\u007f"] == "\\u007f"]']
+ESCAPED_DOCS = [{"a\x7fb": 1, "\x7f": 2, "ab": 3, "\x80\x9f": 4, "l\u2028s\u2029": 5, "\ufeffbom": 6, "soft\xadhy": 7, "\U0001F600": 8, "tab\there": 9, "nl\nx": 10,
+                 "\x1f": 11, "\x00": 12, "items": [{"k\x7f": 1, "id": "x"}, {"k\x7f": 2, "id": "y"}]}, [{"\x7f": "\x7f"}, {"\x7f": "x"}]]
+
+
 def gen(rng, tier):
+    for text in RAW_ESCAPED:
+        yield {"text": text, "docs": ESCAPED_DOCS, "ctx": Q.CTX, "env": None}
     for text in RAW_QUOTES:
         yield {"text": text, "docs": QUOTE_DOCS, "ctx": Q.CTX, "env": None}
     for text in RAW_TOKEN_NAMES:
